@@ -49,3 +49,13 @@ Print Assumptions C01_float64_bits.
 Theorem C01_string_roundtrip : forall n s, dec_string n (enc_string n s) = until_nul (firstn n s).
 Proof. exact string_roundtrip. Qed.
 Print Assumptions C01_string_roundtrip.
+
+(* the reader's int -> float64 widening (f64_of_Z, tied to the Go conversion on bit patterns) is exact
+   for 0 < |z| < 2^53: sign, significand m = |z| * 2^(52 - log2 |z|) and exponent e = log2 |z| - 52,
+   i.e. (-1)^s * m * 2^e = z *)
+Theorem C01_widen_exact : forall z, (0 < Z.abs z < 2 ^ 53)%Z ->
+  f64_fields (f64_of_Z z)
+  = ((z <? 0)%Z, Z.to_N (Z.abs z) * 2 ^ (52 - N.log2 (Z.to_N (Z.abs z))),
+     (Z.of_N (N.log2 (Z.to_N (Z.abs z))) - 52)%Z).
+Proof. exact f64_of_Z_exact. Qed.
+Print Assumptions C01_widen_exact.
